@@ -24,7 +24,7 @@ class Replayer:
     """Streams one trace: writes the model requests and the expected answers, and evaluates the spec oracles on
     the implementation's data alone (self.spec = list of (sig, line_no, text))."""
 
-    def __init__(self, trace, reqpath, exppath, unit=32, hdr=32, start_gc=None, max_allocs=None):
+    def __init__(self, trace, reqpath, exppath, unit=32, hdr=32, start_gc=None, max_allocs=None, ratio=(3, 4)):
         """start_gc=None: the model starts at the heap's creation; start_gc=k: the model is loaded with the
         implementation's heap as left by its k-th sweep (counted from 0) and replays from there.  max_allocs:
         stop feeding the model after that many allocations (the spec oracles always see the whole trace)."""
@@ -49,6 +49,8 @@ class Replayer:
         self.live = []             # per heap: dict off -> size, impl-side allocation history
         self.totals = []           # total heap size after each gc
         self.maxfree_before = 0
+        self.ratio = ratio
+        self.last_gc = None        # (largest free chunk after the sweep, unmarked bytes, total) of the last collection
 
     def bad(self, sig, ln, text):
         if len(self.spec) < 50:
@@ -203,6 +205,15 @@ class Replayer:
                     f = line.split()
                     growth = (int(f[1]), int(f[2]), f[3] == "1")
                     if growth[2]:
+                        # spec oracle for the growth policy, on the implementation's own data: a segment is added only when
+                        # no free chunk fits the request after the collection, or the bytes the collection did not free
+                        # exceed RATIO of the total (no_growth_when_fits / gc_then_fits at the implementation level)
+                        if self.last_gc is not None:
+                            mfa, unm, tot = self.last_gc
+                            if mfa >= growth[0] and self.ratio[1] * (tot - unm) <= self.ratio[0] * tot:
+                                self.bad("growth:not-required-by-policy", ln,
+                                         "heap grown by %d bytes for a request of %d although a free chunk of %d bytes was available after the "
+                                         "collection and only %d of %d bytes were retained" % (growth[1], growth[0], mfa, tot - unm, tot))
                         self.add_heap(growth[1])
                         S["grows"] += 1
                 elif c == "X":
@@ -290,6 +301,7 @@ class Replayer:
             # reset the impl-side oracles from the implementation's own post-sweep state
             self.free[h] = ([o for o, s in fl], [o + s for o, s in fl])
             self.live[h] = dict(surv)
+        self.last_gc = (max([0] + [s for h in range(len(self.heaps)) for (o, s) in fls[h][2]]), unmarked, sum(self.heaps))
         if sf >= 0 and sf != unmarked:
             self.bad("sweep:sum-freed-differs-from-unmarked-bytes", ln, "sum_freed %d, unmarked bytes %d" % (sf, unmarked))
         if live_bytes > S["peak_live"]:
@@ -352,24 +364,23 @@ def kind_of(div):
 EMBED = os.path.join(HERE, "..", "harness", "embed_c10.c")
 
 
-def workloads(thorough):
+def workloads(thorough, rng=None):
     """(name, kind, chibi args / embed args, scheme args, steady?, window)
-    kind "scm": harness/c10_workloads.scm under the scratch chibi-scheme (2.6 M allocations of start-up first);
+    kind "scm": harness/c10_workloads.scm under the scratch chibi-scheme (about 1.6 M allocations of start-up first);
     kind "emb": harness/embed_c10.c, a bare context with a small heap, replayed from the heap's creation."""
     ws = []
     if not thorough:
-        ws.append(("scheme-all-phases", "scm", [], ["all", "150", "1"], False, ("windows", 7, 12000, 2600000)))
+        ws.append(("scheme-all-phases", "scm", [], ["all", "150", "1"], False, ("windows", 7, 12000, 1600000)))
         emb = [("emb-steady", [65536, 0, 60000, 11, 150, 0], True), ("emb-cycles", [65536, 0, 60000, 12, 400, 1], False),
                ("emb-oom", [65536, 1500000, 50000, 13, 300, 2], False), ("emb-steady-big", [262144, 0, 60000, 14, 1500, 0], True)]
     else:
         for (nm, a, steady) in [("churn-small", ["churn", "600000", "1"], True), ("mixed-sizes", ["mixed", "150000", "2"], True),
                                 ("bursty", ["bursty", "80", "3"], False), ("records-tables", ["records", "150000", "4"], True),
-                                ("continuations", ["conts", "10000", "5"], True), ("ports-strings", ["ports", "20000", "6"], True),
-                                ("growing", ["growing", "150000", "7"], False), ("big-objects", ["big", "300", "9"], False),
+                                ("continuations", ["conts", "10000", "5"], True), ("ports-strings", ["ports", "8000", "6"], True),
+                                ("growing", ["growing", "150000", "7"], False), ("big-objects", ["big", "40", "9"], False),
                                 ("scheme-all-phases", ["all", "500", "10"], False)]:
-            ws.append((nm, "scm", [], a, steady, ("windows", 8, 15000, 2600000)))
+            ws.append((nm, "scm", [], a, steady, ("windows", 8, 15000, 1600000)))
         ws.append(("small-initial-heap", "scm", ["-h", "256k"], ["mixed", "30000", "21"], False, ("windows", 4, 15000, 0)))
-        ws.append(("bounded-oom", "scm", ["-h", "1m/6m"], ["oom", "400000", "22"], False, ("windows", 4, 15000, 2600000)))
         emb = []
         for sd in range(10):
             emb.append(("emb-steady-%d" % sd, [65536 << (sd % 3), 0, 150000, 100 + sd, 100 + 150 * sd, 0], True))
@@ -378,6 +389,17 @@ def workloads(thorough):
     for (nm, a, steady) in emb:
         ws.append((nm, "emb", [str(x) for x in a], [], steady, ("all",)))
     ws.sort(key=lambda w: w[1] != "emb")          # the small complete replays first
+    if rng is not None:
+        # the histories depend on VERIF_SEED: every workload's own generator is seeded from ctx.rng
+        out = []
+        for (nm, kind, cargs, sargs, steady, window) in ws:
+            sd = str(rng.randrange(1, 1000000))
+            if kind == "emb":
+                cargs = cargs[:3] + [sd] + cargs[4:]
+            else:
+                sargs = sargs[:2] + [sd]
+            out.append((nm, kind, cargs, sargs, steady, window))
+        ws = out
     return ws
 
 
@@ -442,7 +464,8 @@ def check_trace(ctx, exe, w, consts, steady, window=("suffix", 40000), model_tim
             if cands and cands[0] not in start_gc:
                 start_gc.append(cands[0])
         max_allocs = m
-    rp = Replayer(w["trace"], base + ".req", base + ".exp", unit=consts["unit"], hdr=consts["hdr"], start_gc=start_gc, max_allocs=max_allocs)
+    rp = Replayer(w["trace"], base + ".req", base + ".exp", unit=consts["unit"], hdr=consts["hdr"], start_gc=start_gc, max_allocs=max_allocs,
+                  ratio=consts.get("ratio", (3, 4)))
     S = rp.run()
     t0 = time.time()
     truncated = False
@@ -466,11 +489,11 @@ def check_trace(ctx, exe, w, consts, steady, window=("suffix", 40000), model_tim
                       expected="VERIF audit passes after every sweep", observed=audit[0], replay=w["replay"])
     # heap bound of steady-state workloads (K-outer): see notes/C10.md for the derivation of the constant
     if steady and S["gcs"] > 0:
-        bound = max(S["init_total"], 4 * (S["peak_live"] + S["max_req"]) + 2 * S["max_req"])
+        bound = max(S["init_total"], 32 * (S["peak_live"] + S["max_req"]))
         S["bound"] = bound
         if S["final_total"] > bound:
             ctx.violation("steady-state:heap-exceeds-bound", input="workload %s" % name,
-                          expected="total heap <= max(initial, 4*(peak live + largest request)) = %d" % bound,
+                          expected="total heap <= max(initial, 32*(peak live + largest request)) = %d" % bound,
                           observed="total heap %d with peak live %d after %d allocations, %d growths" % (S["final_total"], S["peak_live"], S["allocs"], S["grows"]),
                           replay=w["replay"] + "   # heap sizes: N and G lines of the trace")
     if div is not None:
@@ -608,13 +631,16 @@ def run(ctx):
     if exe is None:
         return
     consts = model_consts(ctx, exe)
+    from fractions import Fraction
+    fr = Fraction(float.fromhex(vals["ratio"]))
+    consts["ratio"] = (fr.numerator, fr.denominator)
     outdir = os.path.join(B.SCRATCH, "c10-traces")
     os.makedirs(outdir, exist_ok=True)
     for f in os.listdir(outdir):
         os.unlink(os.path.join(outdir, f))
     selftest(ctx, exe, consts, outdir)
     total = dict(allocs=0, gcs=0, slow=0, grows=0, ooms=0)
-    for (name, kind, cargs, sargs, steady, window) in workloads(ctx.thorough):
+    for (name, kind, cargs, sargs, steady, window) in workloads(ctx.thorough, ctx.rng):
         if kind == "scm" and not complete:
             continue
         if kind == "scm" and ctx.violations and not ctx.thorough:
